@@ -95,30 +95,41 @@ class ScopeContext:
         exc_val: BaseException | None,
         exc_tb: TracebackType | None,
     ) -> None:
-        if self._disposables is not None:
-            await self._disposables.__aexit__(
-                exc_type=exc_type,
-                exc_val=exc_val,
-                exc_tb=exc_tb,
-            )
+        try:
+            if self._disposables is not None:
+                await self._disposables.__aexit__(
+                    exc_type=exc_type,
+                    exc_val=exc_val,
+                    exc_tb=exc_tb,
+                )
 
-        await self._task_group_context.__aexit__(
-            exc_type=exc_type,
-            exc_val=exc_val,
-            exc_tb=exc_tb,
-        )
+        except BaseException as exc:
+            # disposing failed or was cancelled - leave the rest of the scope with that exception
+            exc_type, exc_val, exc_tb = type(exc), exc, exc.__traceback__
+            raise
 
-        self._metrics_context.__exit__(
-            exc_type=exc_type,
-            exc_val=exc_val,
-            exc_tb=exc_tb,
-        )
+        finally:
+            try:
+                await self._task_group_context.__aexit__(
+                    exc_type=exc_type,
+                    exc_val=exc_val,
+                    exc_tb=exc_tb,
+                )
 
-        self._state_context.__exit__(
-            exc_type=exc_type,
-            exc_val=exc_val,
-            exc_tb=exc_tb,
-        )
+            finally:
+                try:
+                    self._metrics_context.__exit__(
+                        exc_type=exc_type,
+                        exc_val=exc_val,
+                        exc_tb=exc_tb,
+                    )
+
+                finally:
+                    self._state_context.__exit__(
+                        exc_type=exc_type,
+                        exc_val=exc_val,
+                        exc_tb=exc_tb,
+                    )
 
 
 @final
